@@ -1,8 +1,184 @@
-import Ufw.Model.Regp
-import Ufw.Spec.Regp
+/-
+C07 – corrupted frames are never executed nor acknowledged.  Property theorems only; helper
+lemmas live in Ufw/Lemmas/Regp*.lean and Ufw/Lemmas/CrcAlgebra.lean.
+
+`Spec.Regp.classify` is the independent reading of doc/regp.txt of an arbitrary octet string;
+`verdictOf` (Ufw/Lemmas/RegpVerdict.lean) presents the outcome of the model's `parse_frame`
+(error id and parsed fields) as a verdict of that reading.
+-/
+import Ufw.Lemmas.RegpVerdict
+import Ufw.Lemmas.RegpRecv
+import Ufw.Lemmas.RegpSpec
+
 namespace Ufw.Props.C07
-open Ufw Ufw.Model.Regp
-/-- placeholder while the correspondence is brought up: the session counter wraps at 2^16 -/
-theorem seq_step (c : Cfg) (snk : Ufw.Model.Slip.Snk) (seq : Nat) (s16 : Bool) (a n : Nat) :
-    (regp_req_read c snk seq s16 a n).2 = (seq + 1) % 65536 := rfl
+open Ufw Ufw.Model.Regp Ufw.Lemmas.Regp
+open Ufw.Model.Slip (Snk SrcEv)
+open Ufw.Spec.Regp (Frame MType Verdict classify crc16)
+
+/-- for EVERY octet string the receiver's verdict - accept, bad header encoding (EBADMSG), bad
+    header checksum (EILSEQ), implausible payload size (EFAULT), bad payload checksum (EPROTO) -
+    and the fields it reports are those of the document's reading -/
+theorem verdict_eq_spec (raw : List Octet) : verdictOf raw (parse_frame raw) = some (classify raw) := by
+  simp only [parse_frame, parse_header, classify, RP_HEADER_MIN_SIZE]
+  by_cases h : raw.length < 12
+  · simp [h, parse_frame_rest, verdictOf]
+  · simp only [h, ↓reduceIte]
+    exact verdict_word raw h _
+
+/-- in particular the payload checksum is verified whenever the frame declares one: a frame that
+    gets through with the WITH-PAYLOAD-CRC option and a payload carries the CRC-16/ARC of exactly
+    that payload -/
+theorem accepted_payload_checksum (raw : List Octet) (h : Hdr) (off : Nat)
+    (hok : (parse_frame raw).1 = .ok (h, off)) (hpl : h.opts / 4 % 2 = 1) (hne : raw.drop (2 * off) ≠ []) :
+    h.plcrc = crc16 (raw.drop (2 * off)) := by
+  simp only [parse_frame] at hok
+  cases hph : parse_header raw with
+  | error e => simp [hph, parse_frame_rest] at hok
+  | ok v =>
+    obtain ⟨h', off'⟩ := v
+    simp only [hph, parse_frame_rest] at hok
+    cases hpc : payload_checks h' (raw.drop (2 * off')) with
+    | some e => simp [hpc] at hok
+    | none =>
+      simp only [hpc, Except.ok.injEq, Prod.mk.injEq] at hok
+      obtain ⟨e1, e2⟩ := hok
+      subst e1 e2
+      -- the type got through `parse_header`, so it is one of the five codes
+      have hv := verdict_eq_spec raw
+      simp only [parse_frame, hph, parse_frame_rest, hpc, verdictOf] at hv
+      cases hty : MType.ofCode h'.type with
+      | none => simp [hty] at hv
+      | some t =>
+        have htc := ofCode_some _ _ hty
+        rw [payload_checks_eq h' _ t htc] at hpc
+        by_cases hs : Ufw.Spec.Regp.sizeValid (frameWith t h' (raw.drop (2 * off'))) = true
+        · simp only [hs, Bool.not_true, Bool.false_eq_true, ↓reduceIte] at hpc
+          by_cases hc : h'.plcrc = crc16 (raw.drop (2 * off'))
+          · exact hc
+          · simp [frameWith, hpl, hne, hc, List.isEmpty_iff] at hpc
+        · simp [hs] at hpc
+
+/-- a frame whose reception left an error id is never handed to the memory backend, and what is
+    sent for it is never an acknowledgement: nothing at all, or for a request with a payload fault
+    the EPAYLOADCRC / EPAYLOADSIZE error response -/
+theorem rejected_not_executed (c : Cfg) (snk : Snk) (mf : MaybeFrame) (be : Backend) (e : Err)
+    (herr : mf.err = some e) :
+    (regp_process c snk mf be).2 = [] ∧
+    ((regp_process c snk mf be).1 = ⟨none, snk⟩ ∨
+     ∃ h, (is_request h = true) ∧
+       ((e = .eproto ∧ (regp_process c snk mf be).1 = send_resp_0 c snk h 2 .s8) ∨
+        (e = .efault ∧ (regp_process c snk mf be).1 = send_resp_0 c snk h 3 .s8))) := by
+  simp only [regp_process]
+  cases hf : mf.frame with
+  | none => simp
+  | some blk =>
+    simp only [herr]
+    by_cases h1 : e = .eproto
+    · subst h1
+      cases hh : blk.hdr with
+      | none => simp
+      | some v =>
+        obtain ⟨h, off⟩ := v
+        by_cases hr : is_request h = true
+        · simp only [hr, ↓reduceIte, true_and]
+          exact Or.inr ⟨h, hr, Or.inl rfl⟩
+        · simp [hr]
+    · by_cases h2 : e = .efault
+      · subst h2
+        cases hh : blk.hdr with
+        | none => simp
+        | some v =>
+          obtain ⟨h, off⟩ := v
+          by_cases hr : is_request h = true
+          · simp only [hr, ↓reduceIte, true_and]
+            exact Or.inr ⟨h, hr, Or.inr rfl⟩
+          · simp [hr]
+      · cases e <;> simp_all
+
+/-- reception of a delivered octet string that the document does not accept: the maybe-frame
+    carries an error id, header faults are answered with the META message (EHEADERENC = 1 for bad
+    encoding, EHEADERCRC = 2 for a bad header checksum), payload faults with nothing yet (the error
+    response is sent by `regp_process`, see `rejected_not_executed`) -/
+theorem damaged_frame_reception (p : Inst) (raw : List Octet) (rest : List SrcEv)
+    (hch : channelRecv p.cfg p.src = (none, raw, rest)) (hcap : 0 < p.cfg.B - p.cfg.F)
+    (hne : raw ≠ []) (hal : p.al.script.head?.getD false = false) (hfit : raw.length ≤ p.cfg.B - p.cfg.F)
+    (hbad : ∀ f, classify raw ≠ .accept f) :
+    (∃ e, (regp_recv p).2.1.err = some e) ∧
+    (classify raw = .badHeaderEncoding →
+      ((regp_recv p).1, (regp_recv p).2.2.snk) = ((regp_resp_meta p.cfg p.snk 1).rc, (regp_resp_meta p.cfg p.snk 1).snk)) ∧
+    (classify raw = .badHeaderChecksum →
+      ((regp_recv p).1, (regp_recv p).2.2.snk) = ((regp_resp_meta p.cfg p.snk 2).rc, (regp_resp_meta p.cfg p.snk 2).snk)) ∧
+    ((∃ f, classify raw = .badPayloadSize f ∨ classify raw = .badPayloadChecksum f) →
+      ((regp_recv p).1, (regp_recv p).2.2.snk) = (none, p.snk)) := by
+  obtain ⟨hmf, _, _, _, _, hreply⟩ := recv_stored p raw rest hch hcap hne hal hfit
+  have hv := verdict_eq_spec raw
+  rcases hpf : parse_frame raw with ⟨r, h⟩
+  rw [hpf] at hv hmf hreply
+  cases r with
+  | ok v =>
+    exfalso
+    cases h with
+    | none => simp [verdictOf] at hv
+    | some hv' =>
+      obtain ⟨hd, off⟩ := hv'
+      simp only [verdictOf] at hv
+      cases hty : MType.ofCode hd.type with
+      | none => simp [hty] at hv
+      | some t =>
+        simp only [hty, Option.map_some, Option.some.injEq] at hv
+        exact hbad _ hv.symm
+  | error e =>
+    refine ⟨⟨e, by simp [hmf, errOf]⟩, ?_, ?_, ?_⟩
+    · intro hc
+      rw [hc] at hv
+      cases h with
+      | none =>
+        simp only [verdictOf] at hv
+        by_cases h1 : e = .ebadmsg
+        · simpa [h1] using hreply
+        · by_cases h2 : e = .eilseq <;> simp [h1, h2] at hv
+      | some hv' =>
+        obtain ⟨hd, off⟩ := hv'
+        simp only [verdictOf] at hv
+        by_cases h1 : e = .efault
+        · cases hty : MType.ofCode hd.type <;> simp [h1, hty] at hv
+        · by_cases h2 : e = .eproto
+          · cases hty : MType.ofCode hd.type <;> simp [h1, h2, hty] at hv
+          · simp [h1, h2] at hv
+    · intro hc
+      rw [hc] at hv
+      cases h with
+      | none =>
+        simp only [verdictOf] at hv
+        by_cases h1 : e = .ebadmsg
+        · simp [h1] at hv
+        · by_cases h2 : e = .eilseq
+          · simpa [h1, h2] using hreply
+          · simp [h1, h2] at hv
+      | some hv' =>
+        obtain ⟨hd, off⟩ := hv'
+        simp only [verdictOf] at hv
+        by_cases h1 : e = .efault
+        · cases hty : MType.ofCode hd.type <;> simp [h1, hty] at hv
+        · by_cases h2 : e = .eproto
+          · cases hty : MType.ofCode hd.type <;> simp [h1, h2, hty] at hv
+          · simp [h1, h2] at hv
+    · rintro ⟨f, hc⟩
+      cases h with
+      | none =>
+        simp only [verdictOf] at hv
+        by_cases h1 : e = .ebadmsg
+        · rcases hc with hc | hc <;> simp [h1, hc] at hv
+        · by_cases h2 : e = .eilseq
+          · rcases hc with hc | hc <;> simp [h1, h2, hc] at hv
+          · simp [h1, h2] at hv
+      | some hv' =>
+        obtain ⟨hd, off⟩ := hv'
+        simp only [verdictOf] at hv
+        by_cases h1 : e = .efault
+        · subst h1; simpa using hreply
+        · by_cases h2 : e = .eproto
+          · subst h2; simpa using hreply
+          · simp [h1, h2] at hv
+
 end Ufw.Props.C07
